@@ -563,7 +563,7 @@ func c12TypedMaps(c *fw.Ctx, rng *fw.RNG) {
 	c.SetCase(func() any { return map[string]any{"type_system": schemagen.Describe(ts), "engine": eng.Name()} })
 	c.Count("sequences", 1)
 	for _, t := range ts.Types {
-		if (t.Kind != "map" && t.Kind != "struct") || t.Name[0] != 'T' {
+		if (t.Kind != "map" && t.Kind != "struct" && t.Kind != "union") || t.Name[0] != 'T' {
 			continue
 		}
 		for k := 0; k < 6; k++ {
